@@ -546,6 +546,8 @@ impl<'this> InternalOptimisingLineFormatter<'this, '_> {
                 return Err(FormattingSolutionError::IterationLimitReached);
             }
             iteration_count += 1;
+            #[cfg(feature = "verif_hooks")]
+            verif_work::count_iteration();
 
             trace!("Popping node from the heap");
             if node.next_line_index as usize >= line.1.get_tokens().len() {
@@ -1368,3 +1370,21 @@ mod multiline_strings;
 mod parent_pointer_tree;
 mod requirements;
 mod types;
+
+/// Verification hook: a process-wide count of search iterations (nodes popped from the heap),
+/// so that a test harness can measure the work done for an input without a clock.
+#[cfg(feature = "verif_hooks")]
+pub mod verif_work {
+    use std::sync::atomic::{AtomicU64, Ordering};
+
+    static ITERATIONS: AtomicU64 = AtomicU64::new(0);
+
+    pub(super) fn count_iteration() {
+        ITERATIONS.fetch_add(1, Ordering::Relaxed);
+    }
+
+    /// Returns the number of iterations since the last call and resets the counter.
+    pub fn take_iterations() -> u64 {
+        ITERATIONS.swap(0, Ordering::Relaxed)
+    }
+}
